@@ -58,7 +58,7 @@ CHECKS = {
  "C07": dict(cat="model_checking", design="§3 C07", technique="explicit-state search of the stage-order graph over real TIR values (all 24 stage orders x all reduce placements), invariants on every state and on the set of terminals",
    text="Per template a breadth-first search explores states (canonical TIR, applied stage set, last-was-reduce) whose transitions are the real apply_args / apply_inputs / apply_fees / Node::apply(compiler) / reduce, with compiler ops enabled exactly when a generic walk finds their operands free of unresolved parameters. All terminal states must carry one canonical template, no schedule may fail when another succeeds, and reduce must be idempotent in every state. Templates: corpus, built-in bases (literal / param / env / local operands), all tirgen trees of depth <= 1.",
    note="Canonical form sorts maps, UTxO sets and asset lists (sums); single-UTxO inputs; fresh compiler per compiler-op stage."),
- "C01": dict(cat="translation_validation", design="§3 C01", technique="deviation-bounded exhaustive enumeration of typed programs x arguments x UTxOs x fee x network x layout; oracle = independent big-step semantics over the generator's tree vs. independently decoded transaction",
+ "C01": dict(cat="exploration", design="§3 C01", technique="deviation-bounded exhaustive enumeration of typed programs x arguments x UTxOs x fee x network x layout; oracle = independent big-step semantics over the generator's tree vs. independently decoded transaction",
    text="Every execution of the typed program generator with <= 2 (thorough: 3) deviations from the plain transfer - program features, expression shapes and associations, datum kinds, mint/burn, validity built-ins, signers, metadata, references, collateral, argument value, UTxO contents, fee, network, 7 whitespace/comment layouts, block order, identifier spelling - is printed, run through parse/analyze/lower/apply/reduce/compile, decoded with an independent CBOR + Plutus-Data reader and compared field by field (inputs, outputs in order with address / lovelace / assets / inline datum, mint, validity interval, signers, reference and collateral inputs, metadata, fee, network) with the transaction [[P]] denotes.",
    note="The reference semantics and the decoders are mine and are the trusted base; inputs are applied directly (selection is C03's); programs needing more deviations than the bound are not reached."),
  "C02": dict(cat="exploration", design="§3 C02", technique="exhaustive sweep of a boundary-value alphabet through every quantity sink of the generator's balanced programs, exact reference arithmetic as oracle (value or must-fail)",
@@ -100,7 +100,7 @@ def main():
         },
         "engines": [
             {"name": "tx3-mc", "path": "/verif/mc", "serves_properties": sorted(CHECKS.keys()),
-             "kind_free_text": "Rust harness linked against /repo's crates by path: coordinator + 16 isolated worker processes; deviation-bounded exhaustive exploration of choice trees (dbx) and stateright explicit-state search whose transitions call the implementation"},
+             "kind_free_text": "Rust harness linked against /repo's crates by path: coordinator + 16 isolated worker processes; deviation-bounded exhaustive exploration of choice trees (dbx) and explicit-state breadth-first search whose transitions execute the implementation"},
         ],
         "checks": checks,
         "not_applicable": na,
